@@ -164,6 +164,13 @@ pub enum Op {
     TlsNested { k: u8, j: u8 },
     /// LAZYk deref; result = value observed in the static (its init stamp)
     LazyGet { k: u8 },
+    // ---- futures (feature `futures`) ----
+    /// `block_on(poll_fn(|cx| { [register cx.waker() in the shared AtomicWaker;] if flag.load(o) == v
+    /// { Ready } else { [register;] Pending } }))`. `reg_first`: register before looking at the flag
+    /// (the correct protocol) or after (wake-ups can be lost).
+    BlockOn { a: u8, v: u64, o: MO, reg_first: bool },
+    /// `AtomicWaker::wake()` on the shared AtomicWaker
+    AwWake,
     // ---- exploration controls ----
     StopExploring,
     Explore,
@@ -216,6 +223,7 @@ impl Op {
             | Op::AWithMut { a, .. }
             | Op::AUnsyncLoad { a }
             | Op::Await { a, .. }
+            | Op::BlockOn { a, .. }
             | Op::AwaitY { a, .. } => Some(*a),
             Op::If { then, .. } => then.atomic_loc(),
             _ => None,
@@ -299,6 +307,8 @@ impl fmt::Display for Op {
             TlsWith { k } => write!(f, "tls(k{})", k),
             TlsNested { k, j } => write!(f, "tls(k{};k{})", k, j),
             LazyGet { k } => write!(f, "lazy(z{})", k),
+            BlockOn { a, v, o, reg_first } => write!(f, "block_on(a{}=={},{},{})", a, v, o.short(), if *reg_first { "register-then-check" } else { "check-then-register" }),
+            AwWake => write!(f, "aw_wake"),
             StopExploring => write!(f, "stop_exploring"),
             Explore => write!(f, "explore"),
             SkipBranch => write!(f, "skip_branch"),
@@ -355,7 +365,8 @@ impl Program {
             // (kind, index, is_read_only)
             use Op::*;
             Some(match op {
-                Load { a, .. } | AUnsyncLoad { a } | Await { a, .. } | AwaitY { a, .. } => (0, *a, true),
+                Load { a, .. } | AUnsyncLoad { a } | Await { a, .. } | AwaitY { a, .. } | BlockOn { a, .. } => (0, *a, true),
+                AwWake => (10, 0, false),
                 Store { a, .. }
                 | Swap { a, .. }
                 | FetchAdd { a, .. }
